@@ -32,18 +32,34 @@ def startGuard (o : Opts) (ext : Ext) (name : List Char) (attrs : List Attr) : B
    | .ok as0 => as0.all (fun x => (!x.keep || !x.a.tmpl) && goodName x.name)
    | .error _ => false)
 
-/-- guard, next phase and the pieces completed by one step that wrote `out` for the token `t` -/
-def classify (o : Opts) (ext : Ext) (ph : Phase) (t : HTok) (out : List Char) : Bool × Phase × List Piece :=
+def opener4 : List Char := ['<', '!', '-', '-']
+
+/-- a comment token of the lexer: `<!--` text (`-->` | `--!>`), the text holds no closer -/
+def commentShape (data text : List Char) : Bool :=
+  (data == opener4 ++ text ++ ['-', '-', '>'] || data == opener4 ++ text ++ ['-', '-', '!', '>']) && !hasClose text
+
+/-- in a script: no `<!--` (the escaped states; elsewhere nothing) -/
+def scriptGuard (tag out : List Char) : Bool := !(contentMode false tag == .script) || !hasInfix commentOpen out
+
+/-- guard, next phase and the pieces completed by one step that wrote `out` for the token `t` in the model state `st`.
+    Since html.go enforces them (1557146, 3c66722), two clauses about what OTHER minifiers return are gone: the content
+    written into script/style/iframe needs no check against the element's end tag when the token has the lexer's shape
+    (`rawTextEndsAtEnd tag data`), and a kept comment needs no check when the token has the lexer's shape and does not
+    start with `>` / `->`; the checks on the output remain as alternatives (for states the clause does not cover). -/
+def classify (o : Opts) (ext : Ext) (st : St) (ph : Phase) (t : HTok) (out : List Char) : Bool × Phase × List Piece :=
   match ph, t with
   | .data, .text _ _ => (textSafe out, .data, [.data out])
-  | .data, .comment _ _ => (goodComment out, .data, [.data out])
+  | .data, .comment d tx =>
+    ((!st.dropEnd && commentShape d tx && !abruptStart tx) || goodComment out, .data, [.data out])
   | .data, .doctype => (out == "<!doctype html>".toList, .data, [.data out])
   | .data, .endTag name _ =>
     (out.isEmpty || (goodTag name && !isForeignRoot name && out == endTagBytesOf name), .data, [.data out])
   | .data, .startTag name attrs =>
     if out.isEmpty then (true, .data, [.data out])
     else (startGuard o ext name attrs, if rawMode (contentMode false name) then .rawStart name else .data, [.data out])
-  | .rawStart tag, .text _ _ => (rawContentOK tag out, .rawBody tag out, [])
+  | .rawStart tag, .text d tm =>
+    (scriptGuard tag out &&
+      ((st.rawTag == tag && !tm && !st.dropEnd && rawTextEndsAtEnd tag d) || !hasEndTag tag out), .rawBody tag out, [])
   | .rawStart tag, .endTag _ _ => (out == endTagBytesOf tag, .data, [.rawBody tag out])
   | .rawBody tag c, .endTag _ _ => (out == endTagBytesOf tag, .data, [.rawBody tag (c ++ out)])
   | ph, _ => (false, ph, [])
@@ -56,17 +72,11 @@ def walk (o : Opts) (ext : Ext) (sub : Sub) : St → Phase → List HTok → Exc
     match Verif.Model.Html.step o ext sub st t rest with
     | .error e => .error e
     | .ok (st', out) =>
-      match walk o ext sub st' (classify o ext ph t out).2.1 rest with
+      match walk o ext sub st' (classify o ext st ph t out).2.1 rest with
       | .error e => .error e
-      | .ok (ok, ps) => .ok ((classify o ext ph t out).1 && ok, (classify o ext ph t out).2.2 ++ ps)
+      | .ok (ok, ps) => .ok ((classify o ext st ph t out).1 && ok, (classify o ext st ph t out).2.2 ++ ps)
 
 /-! ## the lexer contract as a decidable predicate -/
-
-def opener4 : List Char := ['<', '!', '-', '-']
-
-/-- a comment token of the lexer: `<!--` text (`-->` | `--!>`), the text holds no closer -/
-def commentShape (data text : List Char) : Bool :=
-  (data == opener4 ++ text ++ ['-', '-', '>'] || data == opener4 ++ text ++ ['-', '-', '!', '>']) && !hasClose text
 
 /-- an end tag token: `</name` white space `>` -/
 def endTagShape (name data : List Char) : Bool :=
